@@ -51,7 +51,7 @@ impl Deserialize for Block {
                         cbor_event::Len::Len(n) => arr.len() < n as usize,
                         cbor_event::Len::Indefinite => true,
                     } {
-                        if is_break_tag(raw, "Block.invalid_transactions")? {
+                        if is_break_tag(raw, len, "Block.invalid_transactions")? {
                             break;
                         }
                         arr.push(TransactionIndex::deserialize(raw)?);
